@@ -312,7 +312,7 @@ func runC03(r *vrt.Run, sb *Sandbox, c C03Case, maxDeclared int) (o c03Out) {
 		o.status = "skipped:declared-block-too-large"
 		return
 	}
-	if lenRatio > 64 && r.KnownOpen("KF-16") {
+	if (lenRatio > 64 || c03LooksLikeKF16(stream)) && r.KnownOpen("KF-16") {
 		// a forged block length prefix beyond 64x the declared block size makes the reader allocate up to 2 GiB (KF-16)
 		o.status = "excluded:KF-16"
 		o.known = "KF-16"
@@ -385,19 +385,34 @@ func runC03(r *vrt.Run, sb *Sandbox, c C03Case, maxDeclared int) (o c03Out) {
 	return
 }
 
-// c03LooksLikeKF16 re-parses the stream leniently: first block length prefix far above the declared block size.
+// c03LooksLikeKF16 walks the block length prefixes the way the reader meets them (width field, length, skip that
+// many bits, next prefix - whatever the payloads hold): true when some prefix within the first blocks declares more
+// than 64 times the declared block size, which makes a decoding task allocate (and clear) up to 2 GiB before it
+// looks at anything else (known finding KF-16: out-of-memory death on a constrained host, minutes of stall on a
+// busy one).
 func c03LooksLikeKF16(stream []byte) bool {
 	b := kfmt.FromBytes(stream)
 	h, err := kfmt.ParseHeader(b)
-	if err != nil {
+	if err != nil || h.BlockSize <= 0 {
 		return false
 	}
-	lw, e1 := b.Read(h.Bits, 5)
-	if e1 != nil {
-		return false
+	pos := h.Bits
+	for i := 0; i < 64; i++ {
+		lw, e1 := b.Read(pos, 5)
+		if e1 != nil {
+			return false
+		}
+		w := int(lw) + 3
+		v, e2 := b.Read(pos+5, min(w, 64))
+		if e2 != nil || v == 0 {
+			return false
+		}
+		if float64(v)/8 > 64*float64(h.BlockSize) {
+			return true
+		}
+		pos += 5 + w + int(v)
 	}
-	v, e2 := b.Read(h.Bits+5, int(min(lw+3, 64)))
-	return e2 == nil && h.BlockSize > 0 && float64(v)/8 > 64*float64(h.BlockSize)
+	return false
 }
 
 func firstLines(s string, n int) string {
